@@ -968,9 +968,11 @@ func runSpk(c spkCase, tr *vw.Trace, j05, j09 bool, extra ...string) *vw.Violati
 		case "node":
 			n := *op.Node
 			found := false
+			var before vw.NodeSpec
 			ns := append([]vw.NodeSpec(nil), r.cl.Nodes...)
 			for j := range ns {
 				if ns[j].Name == n.Name {
+					before = ns[j]
 					ns[j] = n
 					found = true
 				}
@@ -982,8 +984,21 @@ func runSpk(c spkCase, tr *vw.Trace, j05, j09 bool, extra ...string) *vw.Violati
 			r.cl.Nodes = ns
 			r.w.SetCluster(r.cl)
 			r.setMembers(append(r.alive, true)[:len(ns)])
-			r.sim.enqueue("node:" + n.Name)
-			r.sim.enqueue("config")
+			// the reconcilers are only woken by the events their filters let through (creations always)
+			toNode, toConfig := true, true
+			if found {
+				ocr, ncr := before.CR(), n.CR()
+				toNode = controllers.NodeReconcilerPredicate().Update(event.UpdateEvent{ObjectOld: &ocr, ObjectNew: &ncr})
+				toConfig = controllers.VerifConfigUpdatePasses(&ocr, &ncr)
+			}
+			if toNode {
+				r.sim.enqueue("node:" + n.Name)
+			} else {
+				tr.Class("node-update-filtered-for-node-reconciler")
+			}
+			if toConfig {
+				r.sim.enqueue("config")
+			}
 			withdraw = true
 			tr.Class("node-changed")
 		case "config":
